@@ -16,6 +16,8 @@ Blocks (JSON): see ``block_strategy``; summary
   gather   {"op":"gather","src":i}                       -> stack[:-1], nest+1  (size port of the popped scatter)
   cond     {"op":"cond","src":i,"mod":m}                 -> conditional with skip port; value or None
   loop     {"op":"loop","src":i,"m":m,"method":"last"|"all"} -> real loop subgraph; nest 1 (last) / 2 (all)
+  shuffle  {"op":"shuffle","src":i,"ranks":[..],"window":w} -> same stream; tokens re-emitted in a drawn order (jobs finishing in any order)
+  join     {"op":"join","srcs":[i,j]}                    -> multi-input transformer fed directly by two streams of the same stack (same tag sets)
   cross    {"op":"cross","srcs":[i,j],"mode":"flat"|"nested"} -> scatter x scatter + CartesianProductCombinator + gather(s), wired as the CWL translator does
   exec     {"op":"exec","src":i}                         -> schedule + execute pipeline (added by exec-enabled strategies)
 """
@@ -150,6 +152,14 @@ def analyse(blocks: list[dict]) -> tuple[list[dict], list[StreamInfo]]:
             streams.append(StreamInfo(stacks[-1], 0))
             out.append({"op": "zip", "srcs": idx, "out": len(streams) - 1})
             continue
+        if op == "join":
+            i, j = pick(b["srcs"][0]), pick(b["srcs"][1])
+            if i == j or streams[i].stack != streams[j].stack:
+                continue
+            streams[i].consumed = streams[j].consumed = True
+            streams.append(StreamInfo(streams[i].stack, 0))
+            out.append({"op": "join", "srcs": [i, j], "out": len(streams) - 1})
+            continue
         if op == "cross":
             i, j = pick(b["srcs"][0]), pick(b["srcs"][1])
             if i == j or streams[i].nest < 1 or streams[j].nest < 1 or streams[i].stack != streams[j].stack or len(streams[i].stack) >= 2:
@@ -180,6 +190,8 @@ def analyse(blocks: list[dict]) -> tuple[list[dict], list[StreamInfo]]:
             new = StreamInfo(s.stack, 0 if b["method"] == "last" else 2)  # "last" may be None: not scatterable
         elif op == "exec":
             new = StreamInfo(s.stack, 0)
+        elif op == "shuffle":
+            new = StreamInfo(s.stack, s.nest)
         else:
             raise ValueError(op)
         s.consumed = True
@@ -256,6 +268,11 @@ def interpret(blocks: list[dict]) -> dict[int, dict[str, Any]]:
             res[b["out"]] = o
         elif op == "exec":
             res[b["out"]] = {t: exec_fn(v) for t, v in res[b["src"]].items()}
+        elif op == "shuffle":
+            res[b["out"]] = dict(res[b["src"]])
+        elif op == "join":
+            A, B = res[b["srcs"][0]], res[b["srcs"][1]]
+            res[b["out"]] = {t: zip_apply([A[t], B[t]]) for t in A if t in B}
         elif op == "cross":
             A, B = res[b["srcs"][0]], res[b["srcs"][1]]
             o = {}
@@ -338,13 +355,20 @@ def program_strategy(draw, ops=("map", "zip", "scatter", "gather", "cond", "loop
                 ok = [i for i, s in enumerate(streams) if s.stack and s.nest < 3]
             elif op == "zip":
                 ok = list(range(k)) if k >= 2 else []
+            elif op == "shuffle":
+                ok = [i for i, s in enumerate(streams) if s.stack]
+            elif op == "join":
+                ok = [i for i, s in enumerate(streams) if any(j != i and t.stack == s.stack for j, t in enumerate(streams))]
             elif op == "cross":
                 ok = [i for i, s in enumerate(streams) if s.nest >= 1 and len(s.stack) < 2 and any(j != i and t.nest >= 1 and t.stack == s.stack for j, t in enumerate(streams))]
             else:
                 ok = []
             if ok:
                 by[op] = ok
-                cands.extend([op] * (3 if op in ("scatter", "gather", "cross") else 2 if op in ("zip", "loop", "exec") else 1))
+                w = 3 if op in ("scatter", "gather", "cross") else 2 if op in ("zip", "loop", "exec") else 1
+                if op in ("join", "shuffle") and any(s.stack for s in streams):
+                    w = 3
+                cands.extend([op] * w)
         op = draw(st.sampled_from(cands))
         if op == "source":
             blocks.append({"op": "source", "value": draw(source_value)})
@@ -366,6 +390,12 @@ def program_strategy(draw, ops=("map", "zip", "scatter", "gather", "cond", "loop
                 continue
             others = draw(st.lists(st.sampled_from(part), min_size=1, max_size=2, unique=True))
             blocks.append({"op": "zip", "srcs": [src, *others]})
+        elif op == "shuffle":
+            blocks.append({"op": "shuffle", "src": src, "ranks": draw(st.lists(st.integers(0, 9), min_size=1, max_size=8)), "window": draw(st.sampled_from([0, 0, 2, 3]))})
+        elif op == "join":
+            part = [j for j, t in enumerate(streams) if j != src and t.stack == streams[src].stack]
+            # prefer partners that carry several tokens (scattered streams)
+            blocks.append({"op": "join", "srcs": [src, draw(st.sampled_from(part))]})
         elif op == "cross":
             part = [j for j, t in enumerate(streams) if j != src and t.nest >= 1 and t.stack == streams[src].stack]
             blocks.append({"op": "cross", "srcs": [src, draw(st.sampled_from(part))], "mode": draw(st.sampled_from(["flat", "nested"]))})
